@@ -168,7 +168,7 @@ fn gen_edit_event(rng: &mut Rng, texts: &[String], uris: &[&str], counter: &mut 
 pub fn gen_c11(rng: &mut Rng, thorough: bool, run_index: u64) -> LspTrace {
     let max_len = if thorough { 4 } else { 3 };
     if let Some(events) = enumerated_history(run_index, max_len) {
-        return LspTrace { prop: "C11".into(), ws_files: vec![], use_ws_folder: false, events, hash_seeds: vec![rng.next(), rng.next()], dir_seed: rng.next(), mode: "enumerated".into() };
+        return LspTrace { prop: "C11".into(), ws_files: vec![], use_ws_folder: false, events, hash_seeds: vec![rng.next(), rng.next()], dir_seed: rng.next(), mode: "enumerated".into(), init_shape: 0 };
     }
     let slots = rng.range(2, 4);
     let texts = text_pool(rng, slots);
@@ -195,7 +195,9 @@ pub fn gen_c11(rng: &mut Rng, thorough: bool, run_index: u64) -> LspTrace {
         };
         events.push(e);
     }
-    LspTrace { prop: "C11".into(), ws_files, use_ws_folder, events, hash_seeds: (0..4).map(|_| rng.next()).collect(), dir_seed: rng.next(), mode: "random".into() }
+    // the initialize request comes in several legal shapes that announce the same folder (or none)
+    let init_shape = if use_ws_folder { *rng.pick(&[0u8, 0, 7, 8, 9]) } else { *rng.pick(&[0u8, 0, 0, 1, 8]) };
+    LspTrace { prop: "C11".into(), ws_files, use_ws_folder, events, hash_seeds: (0..4).map(|_| rng.next()).collect(), dir_seed: rng.next(), mode: "random".into(), init_shape }
 }
 
 pub fn gen_c12(rng: &mut Rng, _thorough: bool) -> LspTrace {
@@ -266,8 +268,21 @@ pub fn gen_c12(rng: &mut Rng, _thorough: bool) -> LspTrace {
         }
     }
     let use_ws_folder = rng.chance(1, 4);
-    let ws_files = if use_ws_folder { gen_ws_files(rng, &texts) } else { vec![] };
-    LspTrace { prop: "C12".into(), ws_files, use_ws_folder, events, hash_seeds: vec![rng.next()], dir_seed: rng.next(), mode: "random".into() }
+    // initialization itself varies: every legal shape of the folder announcement (none, empty list,
+    // deprecated root only, two folders, a folder that is missing / a regular file / not a file URI,
+    // other spellings of the same folder, a client that sends everything VS Code sends)
+    let init_shape = if rng.chance(1, 2) {
+        0
+    } else if use_ws_folder {
+        *rng.pick(&[7u8, 8, 9])
+    } else {
+        *rng.pick(&[1u8, 2, 3, 4, 5, 6, 8])
+    };
+    let mut ws_files = if use_ws_folder || matches!(init_shape, 2 | 3) { gen_ws_files(rng, &texts) } else { vec![] };
+    if init_shape == 5 {
+        ws_files = vec![("a.st".to_string(), rng.pick(&texts).clone())];
+    }
+    LspTrace { prop: "C12".into(), ws_files, use_ws_folder, events, hash_seeds: vec![rng.next()], dir_seed: rng.next(), mode: "random".into(), init_shape }
 }
 
 /// Adds layout trivia of the kinds the C15 quantifier names.
@@ -347,7 +362,7 @@ pub fn gen_c15(rng: &mut Rng, _thorough: bool) -> LspTrace {
         events.push(e);
     }
     events.push(Event::SemTok { uri: rng.pick(&uris).to_string(), id_kind: 0 });
-    LspTrace { prop: "C15".into(), ws_files: vec![], use_ws_folder: false, events, hash_seeds: (0..3).map(|_| rng.next()).collect(), dir_seed: rng.next(), mode: "random".into() }
+    LspTrace { prop: "C15".into(), ws_files: vec![], use_ws_folder: false, events, hash_seeds: (0..3).map(|_| rng.next()).collect(), dir_seed: rng.next(), mode: "random".into(), init_shape: *rng.pick(&[0u8, 0, 0, 1, 8]) }
 }
 
 pub fn generate(prop: &str, rng: &mut Rng, thorough: bool, run_index: u64) -> LspTrace {
@@ -452,7 +467,7 @@ pub fn run_history(t: &LspTrace) -> History {
     let mut incs = vec![];
     let mut seed_i = 0;
     let seed = |i: usize| t.hash_seeds.get(i % t.hash_seeds.len().max(1)).copied().unwrap_or(1);
-    let mut session = Session::start(seed(seed_i), hooks.clone(), ws_folder_uri(t));
+    let mut session = Session::start_shaped(seed(seed_i), hooks.clone(), ws_folder_uri(t), t.init_shape);
     let mut model = Model::default();
     let mut prev_notification: Option<(usize, lsp_server::Message)> = None;
     for (i, ev) in t.events.iter().enumerate() {
@@ -463,7 +478,7 @@ pub fn run_history(t: &LspTrace) -> History {
             Event::Restart => {
                 incs.push(session.crash());
                 seed_i += 1;
-                session = Session::start(seed(seed_i), hooks.clone(), ws_folder_uri(t));
+                session = Session::start_shaped(seed(seed_i), hooks.clone(), ws_folder_uri(t), t.init_shape);
                 // the editor re-opens what it believes to be open
                 for (uri, (version, text)) in model.docs.clone() {
                     let open = Event::Open { uri, version, text };
@@ -636,7 +651,19 @@ fn oracle_c12(t: &LspTrace, h: &History, stats: &mut Stats) -> Vec<Violation> {
 
 /// What a freshly started server publishes for `uri` when it is opened last, after all other
 /// documents of the model (in sorted or shuffled order).
+///
+/// Every reference server is a forked child of its own (the run's process is single-threaded by
+/// then: the servers of the history have been joined), so process-global state that a change under
+/// test may keep is shared neither with the server of the history nor between reference servers —
+/// exactly as for a really restarted server.
 fn fresh_server_publish(t: &LspTrace, model: &Model, uri: &str, version: i32, seed: u64, shuffle: bool) -> Result<Value, String> {
+    match crate::seam::run_forked(|| fresh_server_publish_in_this_process(t, model, uri, version, seed, shuffle)) {
+        Ok(r) => r,
+        Err(why) => Err(format!("fresh server process died: {why}")),
+    }
+}
+
+fn fresh_server_publish_in_this_process(t: &LspTrace, model: &Model, uri: &str, version: i32, seed: u64, shuffle: bool) -> Result<Value, String> {
     let hooks = SimHooks::new(root(), mix(&[seed, 77]), vec![]);
     let mut s = Session::start(seed, hooks, ws_folder_uri(t));
     let target_path = uri_path(uri);
@@ -1103,6 +1130,13 @@ fn ends_in_invalid_blank(text: &str) -> bool {
 }
 
 fn fresh_server_tokens(uri: &str, text: &str, seed: u64) -> Result<Value, String> {
+    match crate::seam::run_forked(|| fresh_server_tokens_in_this_process(uri, text, seed)) {
+        Ok(r) => r,
+        Err(why) => Err(format!("fresh server process died: {why}")),
+    }
+}
+
+fn fresh_server_tokens_in_this_process(uri: &str, text: &str, seed: u64) -> Result<Value, String> {
     let hooks = SimHooks::new(root(), seed, vec![]);
     let mut s = Session::start(seed, hooks, None);
     s.deliver(None, "didOpen", event_message(&Event::Open { uri: uri.to_string(), version: 1, text: text.to_string() }, 0).unwrap());
@@ -1236,6 +1270,7 @@ pub fn execute(t: &LspTrace, stats: &mut Stats) -> RunReport {
     if t.use_ws_folder {
         stats.count("event.workspaceFolder");
     }
+    stats.count(&format!("event.initialize.{}", crate::lsp::init_shape_name(t.init_shape)));
     // reach: abstract server state = sorted (slot, text class) after the history x last event kind
     let mut model = Model::default();
     for ev in &t.events {
@@ -1255,7 +1290,7 @@ pub fn execute(t: &LspTrace, stats: &mut Stats) -> RunReport {
     let nontrivial = t.events.iter().any(|e| matches!(e, Event::Open { .. } | Event::Change { .. } | Event::SemTok { .. } | Event::UnknownRequest { .. } | Event::ClientResponse { .. }));
     // single-incarnation, disk-free histories can be cross-checked against the shipped binary
     let mut proc_cases = vec![];
-    if h.incarnations.len() == 1 && !t.use_ws_folder && h.incarnations[0].died.is_none() && (t.prop == "C12" || t.prop == "C11") {
+    if h.incarnations.len() == 1 && !t.use_ws_folder && matches!(t.init_shape, 0 | 1 | 6 | 8) && h.incarnations[0].died.is_none() && (t.prop == "C12" || t.prop == "C11") {
         let inc = &h.incarnations[0];
         let frames: Vec<Value> = inc.steps.iter().map(|s| {
             // lsp-server (de)serialises messages without the jsonrpc member; the wire format needs it
@@ -1296,10 +1331,18 @@ pub fn shrink(t: &LspTrace) -> Vec<LspTrace> {
         c.events.remove(i);
         out.push(c);
     }
-    // 2. no workspace folder, fewer files on disk
+    // 2. no workspace folder, fewer files on disk, the plain initialize request
     if t.use_ws_folder {
         let mut c = t.clone();
         c.use_ws_folder = false;
+        if matches!(c.init_shape, 7 | 9) {
+            c.init_shape = 0;
+        }
+        out.push(c);
+    }
+    if t.init_shape != 0 {
+        let mut c = t.clone();
+        c.init_shape = 0;
         out.push(c);
     }
     for i in 0..t.ws_files.len() {
